@@ -63,7 +63,7 @@ class GlobalSpy:
 
 
 TABLES = {
-    "Canonical": ["rotation_molecule", "compop_sched", "ball", "box_x2"],
+    "Canonical": ["rotation_molecule", "box_x2", "compop_sched", "ball"],
     "HamiltonianCanonical": ["ham"],
     "Isobaric": ["cell_iso_disp", "cell_shape"],
     "Isotension": ["cell_aniso"],
@@ -185,7 +185,7 @@ def run(tier: str) -> int:
     exps = []
     interner: dict = {}
     for driver, tables in TABLES.items():
-        for table in (tables if tier == "thorough" else tables[:2]):
+        for table in (tables if tier == "thorough" else tables[:3]):
             for si, seed in enumerate(seeds):
                 if tier == "quick" and si >= 3 and (hash((driver, table)) + si) % 3:
                     continue
